@@ -8,18 +8,28 @@ from .astutil import iter_stores, Store
 from .index import FuncInfo, Index, norm
 
 
+def _store_index(idx: Index):
+    cache = getattr(idx, "_store_cache", None)
+    if cache is None:
+        cache = {}
+        for f in idx.all_funcs():
+            for s in iter_stores(f.node, include_nested=True):
+                if s.attr is not None:
+                    cache.setdefault(s.attr, []).append((f, s))
+        for m in idx.modules.values():
+            fake = ast.Module(body=[st for st in m.tree.body if not isinstance(st, (ast.FunctionDef, ast.AsyncFunctionDef, ast.ClassDef))], type_ignores=[])
+            fi = FuncInfo("<module>", "<module>", m, m.tree)
+            for s in iter_stores(fake, include_nested=False):
+                if s.attr is not None:
+                    cache.setdefault(s.attr, []).append((fi, s))
+        idx._store_cache = cache
+    return cache
+
+
 def all_stores(idx: Index, attr: str, include_nested=True):
     """Every store (assignment, aug, del, subscript store, mutating call, setattr) whose written
     location's last attribute is `attr`, in any function of the tree + module level code."""
-    for f in idx.all_funcs():
-        for s in iter_stores(f.node, include_nested=include_nested):
-            if s.attr == attr:
-                yield f, s
-    for m in idx.modules.values():
-        fake = ast.Module(body=[st for st in m.tree.body if not isinstance(st, (ast.FunctionDef, ast.AsyncFunctionDef, ast.ClassDef))], type_ignores=[])
-        for s in iter_stores(fake, include_nested=False):
-            if s.attr == attr:
-                yield FuncInfo("<module>", "<module>", m, m.tree), s
+    return list(_store_index(idx).get(attr, []))
 
 
 def check_writers(rule, idx: Index, attr: str, allowed: Dict[str, str], relevant: Optional[Callable[[FuncInfo, Store], bool]] = None,
